@@ -11,7 +11,8 @@ SrcTables == { <<SA, SB, SA>>, <<SC, SA>>, <<SB, SA, SC>> }         \* duplicate
 NameTables == { <<"n", "m", "n">>, <<>> }
 ContentTables(n) == { [i \in 1..n |-> <<>>], [i \in 1..n |-> IF i = 2 THEN <<"two">> ELSE <<>>], [i \in 1..n |-> <<"c">>] }
 PrefixLists == { <<>>, << <<47, 97>> >>, << <<47, 97, 47>> >>, << <<47>>, <<47, 97>> >>, << <<98>>, <<47, 97>> >>,
-                 << <<47>>, <<97>> >> }      \* "/" then "a": the remainder after the first strip begins with the second prefix
+                 << <<47>>, <<97>> >>,
+                 << <<47, 97>>, <<47>> >> }        \* nested prefixes, the more specific one listed first      \* "/" then "a": the remainder after the first strip begins with the second prefix
 VARIABLES phase, p, opts, k, b
 vars == <<phase, p, opts, k, b>>
 Init == /\ phase = "build" /\ k = 0 /\ b = BInit
